@@ -212,7 +212,14 @@ template <typename AT> struct Lin {
     if (!lf_eval(res, rho, got)) { viol("C12.lf." + op + ":nan-or-reverse-infinite-coefficient", what + " result=" + lf_show(res)); return false; }
     if (!r_subset(want, got)) {
       std::ostringstream o; o << what << " result=" << lf_show(res) << " at rho=("; for (size_t i = 0; i < rho.size(); ++i) o << (i ? "," : "") << qstr(rho[i]); o << "): needs " << show(want) << " obtained " << show(got);
-      viol("C12.lf." + op + (cls.empty() ? "" : ":" + cls), o.str()); return false;
+      std::string c = cls;
+      if (c.empty()) {
+        bool lo_open = !got.empty && !want.empty && !got.lo.inf && !want.lo.inf && got.lo.v == want.lo.v && got.lo.open && !want.lo.open;
+        bool hi_open = !got.empty && !want.empty && !got.hi.inf && !want.hi.inf && got.hi.v == want.hi.v && got.hi.open && !want.hi.open;
+        bool lo_bad = !got.empty && !want.empty && cmpL(got.lo, want.lo) > 0 && !lo_open, hi_bad = !got.empty && !want.empty && cmpU(got.hi, want.hi) < 0 && !hi_open;
+        c = (got.empty && !want.empty) ? "empty-result" : (lo_bad || hi_bad) ? "value-outside" : "openness-of-attained-extreme";
+      }
+      viol("C12.lf." + op + ":" + c, o.str()); return false;
     }
     return true;
   }
@@ -232,7 +239,7 @@ template <typename AT> struct Lin {
       std::string cls; { RI t; bool u = false; for (int i = 0; i <= n; ++i) { if (i < n ? rdI(f1.coefficient(Variable(i)), t) : rdI(f1.inhomogeneous_term(), t)) u = u || unbounded(t); if (i < n ? rdI(f2.coefficient(Variable(i)), t) : rdI(f2.inhomogeneous_term(), t)) u = u || unbounded(t); } if (u || unbounded(rc)) cls = "unbounded-coefficient"; }
       LF res; int vi = rnd(0, n - 1);
       Linear_Expression le; std::vector<long> lec(n + 1, 0);
-      int fmt_i = rnd(0, 5);
+      int fmt_i = rnd(0, 5); bool sub_rev = false;
       try {
         switch (op) {
         case 0: res = f1 + f2; break;
@@ -245,9 +252,11 @@ template <typename AT> struct Lin {
         case 7: res = f1; res *= c; break;
         case 8: res = f1; res /= c; break;
         case 9: res = coin() ? f1 + c : c + f1; break;
-        case 10: res = f1 - c; break;
+        // operator-(const Linear_Form<C>&, const C&) is not instantiable for interval C ("-n + f": Interval has no unary minus);
+        // the engine uses the two spellings that do compile
+        case 10: sub_rev = coin(); if (sub_rev) res = c - f1; else { res = f1; res -= c; } break;
         case 11: res = coin() ? f1 + Variable(vi) : Variable(vi) + f1; break;
-        case 12: { for (int i = 0; i < n; ++i) { lec[i] = coin(20) ? (long) rnd(-2000000000, 2000000000) * 1000003L : rnd(-5, 5); le += Coefficient(lec[i]) * Variable(i); } lec[n] = coin(20) ? (long) rnd(-2000000000, 2000000000) * 1000003L : rnd(-5, 5); le += Coefficient(lec[n]); res = LF(le); break; }
+        case 12: { for (int i = 0; i < n; ++i) { lec[i] = coin(20) ? (long) rnd(-1000000, 1000000) * 1000003007L : rnd(-5, 5); le += Coefficient(lec[i]) * Variable(i); } lec[n] = coin(20) ? (long) rnd(-1000000, 1000000) * 1000003007L : rnd(-5, 5); le += Coefficient(lec[n]); res = LF(le); break; }
         default: {
           // relative_error needs bounded coefficients (asserted); together with compute_absolute_error it must bound the rounding error
           if (cls == "unbounded-coefficient") { hx::count("skipped.relative_error_unbounded"); continue; }
@@ -267,7 +276,7 @@ template <typename AT> struct Lin {
         case 5: case 6: case 7: want = r_mul(rc, v1); break;
         case 8: want = r_div(v1, rc); break;
         case 9: want = r_add(v1, rc); break;
-        case 10: want = r_sub(v1, rc); break;
+        case 10: want = sub_rev ? r_sub(rc, v1) : r_sub(v1, rc); break;
         case 11: want = r_add(v1, ri_point(rho[vi])); break;
         case 12: { Q t(lec[n]); for (int i = 0; i < n; ++i) t += Q(lec[i]) * rho[i]; want = ri_point(t); break; }
         default: {
@@ -314,7 +323,7 @@ template <typename AT> struct Lin {
       int w = rnd(0, 99);
       if (w < 35) {   // constant: dyadic (exact in every format) or a decimal that no binary format represents
         std::string s;
-        if (coin(70)) { int n = rnd(-40, 40), sh = rnd(0, 4); nd.cq = Q(n) / q2exp(sh) * q2exp(0); nd.cq = Q(n, 1 << sh); nd.cq.canonicalize(); }
+        if (coin(70)) { int n = rnd(-40, 40), sh = rnd(0, 4); nd.cq = Q(n, 1 << sh); nd.cq.canonicalize(); }
         else { nd.cq = Q(rnd(-999, 999), coin() ? 10 : 1000); nd.cq.canonicalize(); }
         // decimal string of cq (finite: denominators divide a power of 10)
         { Q a = abs(nd.cq); mpz_class ip = zfloor(a); Q fr = a - Q(ip); std::string digs; for (int i = 0; i < 12 && fr != 0; ++i) { fr *= 10; mpz_class d = zfloor(fr); digs += (char) ('0' + d.get_si()); fr -= Q(d); }
